@@ -101,6 +101,13 @@ func genC10(e *emitter, tier string) {
 			}
 		}
 	}
+	// PRelu at exactly zero (and -0) with slopes that would turn 0 into something else: infinite, NaN, negative
+	for _, dt := range []string{"f32", "f64"} {
+		x := fT(dt, []int{2, 4}, []float64{0, math.Copysign(0, -1), 0, 1, -1, 0, math.Copysign(0, -1), 2})
+		sl := fT(dt, []int{2, 4}, []float64{math.Inf(1), math.Inf(-1), math.NaN(), math.NaN(), math.Inf(1), -2, -3, math.Inf(-1)})
+		e.emit(opCase("prelu-zero", "PRelu", nil, []*TJ{x, sl}, nil))
+		e.emit(opCase("prelu-zero", "PRelu", nil, []*TJ{x, fT(dt, []int{4}, []float64{math.Inf(1), math.NaN(), -2, math.Inf(-1)})}, nil))
+	}
 	// large tensors (sizes at which kernels switch to block-wise / parallel loops; not multiples of the
 	// usual block sizes): every element of the result is still the function of its own input element
 	for _, n := range []int{9001, 12345} {
